@@ -1070,6 +1070,41 @@ static int alloc_bound_hook(long k)
 }
 
 /* run one case in this process; returns 0 ok / 1 violation (f filled) / -1 not applicable / -2 skipped by flood control */
+static const char *addr_func(void *addr, char *buf, size_t n)
+{
+    /* resolve the allocation site to a function name with addr2line (PIE: subtract the load base) */
+    unsigned long base = 0; /* drivers are linked -no-pie: addresses are absolute */
+    char cmd[400], exe[256];
+    FILE *p;
+    ssize_t l;
+    l = readlink("/proc/self/exe", exe, sizeof(exe) - 1);
+    if (l <= 0)
+    {
+        snprintf(buf, n, "?");
+        return buf;
+    }
+    exe[l] = 0;
+    snprintf(cmd, sizeof(cmd), "addr2line -f -i -e %s 0x%lx 2>/dev/null", exe, (unsigned long) addr - base - 1);
+    p = popen(cmd, "r");
+    snprintf(buf, n, "?");
+    if (p)
+    {
+        char line[256];
+        /* with -i the innermost frame comes first; skip allocator shims */
+        while (fgets(line, sizeof(line), p))
+        {
+            line[strcspn(line, "\n")] = 0;
+            if (line[0] && line[0] != '/' && line[0] != '?' && !strstr(line, "psMalloc") && !strstr(line, "__wrap"))
+            {
+                snprintf(buf, n, "%s", line);
+                break;
+            }
+        }
+        pclose(p);
+    }
+    return buf;
+}
+
 static int run_case(const entry_t *E, int si, long idx, bfind_t *f, int *ok, int *rcout, int verbose)
 {
     mbuf_t m = { obuf, 0 };
@@ -1149,9 +1184,15 @@ static int run_case(const entry_t *E, int si, long idx, bfind_t *f, int *ok, int
     }
     if (live1 != live0)
     {
+        void *sites[2];
+        char site[128] = "?";
+        if (env_live_sites(sites, 2) > 0)
+        {
+            addr_func(sites[0], site, sizeof(site));
+        }
         f->viol = 1;
-        snprintf(f->key, sizeof(f->key), "%s|leak|%s", E->name, cls);
-        snprintf(f->what, sizeof(f->what), "%s rc %d on seed %s %s (%s): %ld allocation(s) still live after the result was freed", E->name, rc, seed_name(si), cls, detail, live1 - live0);
+        snprintf(f->key, sizeof(f->key), "%s|leak|%s", E->name, site);
+        snprintf(f->what, sizeof(f->what), "%s rc %d on seed %s %s (%s): %ld allocation(s) still live after the result was freed, first allocated in %s", E->name, rc, seed_name(si), cls, detail, live1 - live0, site);
         return 1;
     }
     if (rc > E->max_ok_rc)
